@@ -50,6 +50,19 @@ class Ref:
                 if tgt is None:
                     return None
                 out += list(self.files[tgt]["raw"])
+            elif st[0] == "defmac":
+                self.macros = getattr(self, "macros", {})
+                self.macros[st[1]] = st[2]
+            elif st[0] == "callmac":
+                # a macro body is replayed where it is INVOKED: its @include/@incbin are looked up
+                # relative to the invoking file, wherever the macro was defined
+                saved = self.files[path]
+                self.files[path] = {"stmts": getattr(self, "macros", {}).get(st[1], [])}
+                sub = self.expand(path, depth)
+                self.files[path] = saved
+                if sub is None:
+                    return None
+                out += sub
             elif st[0] in ("each", "if", "macro"):
                 # constructs that read their body from a recorded token list: the body is the
                 # given statements, n times; lookups inside and after it stay relative to this file
@@ -80,6 +93,12 @@ def render(stmts):
             lines.append(f'@include "{st[1]}"')
         elif st[0] == "incbin":
             lines.append(f'@incbin "{st[1]}"')
+        elif st[0] == "defmac":
+            lines.append(f"@macro {st[1]}, 0")
+            lines.append(render(st[2]).rstrip("\n"))
+            lines.append("@endmacro")
+        elif st[0] == "callmac":
+            lines.append(st[1])
         elif st[0] == "each":
             _uniq[0] += 1
             lines.append(f"@each TT{_uniq[0]}, {{ {' '.join(str(i + 1) for i in range(st[1]))} }}")
@@ -113,13 +132,31 @@ def run(tier, seed):
         next_id[0] = next_id[0] % 200 + 1
         return next_id[0]
 
+    extra_dirs = {}
     for search in search_variants:
-        for mask in range(1 << len(DIRS)):
-            present = [d for i, d in enumerate(DIRS) if mask >> i & 1]
+        for combo in itertools.product((0, 1, 2), repeat=len(DIRS)):      # per candidate directory: nothing / the file / a DIRECTORY of that name
+            if tier == "quick" and 2 in combo and rng.random() < 0.6:
+                continue
             files = {"/p/main.asm": {"stmts": [("db", 1), ("include", "a.inc"), ("db", 2), ("incbin", "a.bin"), ("db", 3)]}}
-            for d in present:
-                files[f"{d}/a.inc"] = {"stmts": [("db", 100 + DIRS.index(d))]}
-                files[f"{d}/a.bin"] = {"raw": bytes([200 + DIRS.index(d), 7])}
+            xd = []
+            for d, what in zip(DIRS, combo):
+                if what == 1:
+                    files[f"{d}/a.inc"] = {"stmts": [("db", 100 + DIRS.index(d))]}
+                    files[f"{d}/a.bin"] = {"raw": bytes([200 + DIRS.index(d), 7])}
+                elif what == 2:
+                    xd += [f"{d}/a.inc", f"{d}/a.bin"]
+            extra_dirs[len(cases)] = xd
+            cases.append((files, search, "/cwd", "/p/main.asm"))
+    # a macro defined in an included file and invoked from the including file: its @incbin/@include
+    # are looked up from where it is invoked
+    for search in search_variants:
+        for mask in range(1 << 3):
+            files = {"/p/main.asm": {"stmts": [("db", 1), ("include", "sub/lib.inc"), ("callmac", "GETX"), ("db", 2)]},
+                     "/p/sub/lib.inc": {"stmts": [("db", 9), ("defmac", "GETX", [("incbin", "x.bin"), ("include", "y.inc")])]}}
+            for i, d in enumerate(["/p", "/p/sub", "/lib1"]):
+                if mask >> i & 1:
+                    files[f"{d}/x.bin"] = {"raw": bytes([40 + i])}
+                    files[f"{d}/y.inc"] = {"stmts": [("db", 50 + i)]}
             cases.append((files, search, "/cwd", "/p/main.asm"))
     n_exh = len(cases)
     # (2) include graphs of depth <= 3 with relative names crossing directories; after an included
@@ -176,14 +213,14 @@ def run(tier, seed):
         fmap = {p: (render(f["stmts"]).encode() if "stmts" in f else f["raw"]) for p, f in files.items()}
         # the root is named relative to the process working directory where possible
         rootarg = posixpath.relpath(root, cwd) if k % 2 else root
-        lines.append(A.case_line(f"f{k}", "6502", fmap, root=rootarg, cwd=cwd, search=search, dirs=DIRS))
+        lines.append(A.case_line(f"f{k}", "6502", fmap, root=rootarg, cwd=cwd, search=search, dirs=DIRS + extra_dirs.get(k, [])))
     impl, model = A.run_both(lines)
     for k, (files, search, cwd, root) in enumerate(cases):
         cid = f"f{k}"
         im = A.parse_impl(impl.get(cid))
         mo = A.parse_model(model.get(cid))
         chk.evaluations += 1
-        chk.distinct.add((tuple(sorted(files)), tuple(search), cwd, root))
+        chk.distinct.add((tuple(sorted(files)), tuple(extra_dirs.get(k, [])), tuple(search), cwd, root))
         if not A.agree(im, mo):
             chk.disagreements.append({"files": sorted(files), "search": search, "cwd": cwd, "root": root,
                                       "impl": str(im)[:200], "model": str(mo)[:200]})
@@ -212,7 +249,7 @@ def run(tier, seed):
                json.dumps(chk.disagreements[:2])[:700])
     chk.oblige("every generator feature was exercised", len(feats) >= 5 and all(feats.values()), str(feats))
     chk.coverage.update({"exhaustive": True, "features": feats,
-                         "exhaustive_note": f"one relative name present in EVERY subset of the {len(DIRS)} candidate directories x {len(search_variants)} search-path lists (absolute, relative, 0..3 entries), root file outside the working directory: {n_exh} trees; plus seeded include graphs of depth <= 3 with relative names crossing directories, with @each / @if / macro bodies around and between the includes"})
+                         "exhaustive_note": f"one relative name present as a file, as a DIRECTORY of that name, or absent, in each of the {len(DIRS)} candidate directories x {len(search_variants)} search-path lists (absolute, relative, 0..3 entries), root file outside the working directory: {n_exh} trees; plus seeded include graphs of depth <= 3 with relative names crossing directories, with @each / @if / macro bodies around and between the includes"})
     chk.assumptions = ["path normalisation (path-absolutize crate) is modelled as lexical normalisation and validated here; the in-memory FileSystem of the harness stands in for the operating system (the real-file-system leg runs under C15)"]
     return chk.finish(
         checker_cmd="cd /verif/lean && lake build Az65.Thm.C12 && #print axioms audit",
